@@ -621,6 +621,17 @@ pub fn run_c17(ctx: &mut Ctx, rng: &mut Rng, _t: bool) {
             } else {
                 short_power_trace(rng, rating, n, false)
             };
+            if !re_equipped && rng.chance(0.25) {
+                // a consist that has already worked an earlier trip (its own step counter and energies are not at
+                // their initial values) is put into a new simulation; what the file says about either counter is
+                // what must come back
+                let n_prev = rng.usize(3, 12);
+                let prev_trace = short_power_trace(rng, rating, n_prev, false);
+                let mut prev = ConsistSimulation::new(con.clone(), prev_trace, interval);
+                let _ = prev.walk();
+                con = prev.loco_con;
+                ctx.count("obs.checkpointed_consists_carried_over_from_an_earlier_trip");
+            }
             let sim = ConsistSimulation::new(con, trace, interval);
             checkpoints_opt(ctx, &sim, 100, re_equipped);
             roundtrip(ctx, "ConsistSimulation", "default", &ConsistSimulation::default());
